@@ -200,10 +200,10 @@ class SymE:
             st.assume(f(arr, 0) == zint(init))
             if lo is not None:
                 j = z3.Int(st.fresh_name('k'))
-                st.assume(z3.ForAll([j], z3.And(f(arr, j) >= lo, f(arr, j) < hi)), heavy=True)
+                st.assume(z3.ForAll([j], z3.And(f(arr, j) >= lo, f(arr, j) < hi) if hi is not None else f(arr, j) >= lo), heavy=True)
         st.ghost.setdefault('fold_defs', {})[name] = (init, step, lo, hi)
         if lo is not None:
-            st.assume(z3.And(f(arr, zint(n)) >= lo, f(arr, zint(n)) < hi))      # instance of the range axiom at n
+            st.assume(z3.And(f(arr, zint(n)) >= lo, f(arr, zint(n)) < hi) if hi is not None else f(arr, zint(n)) >= lo)      # instance of the range axiom at n
         return mk(f(arr, zint(n)))
 
     def fold_state(self, name, data, j, unfold=False):
@@ -222,14 +222,16 @@ class SymE:
             st.solver.push()
             st.solver.add(elem_ok, jz > 0)
             if lo is not None:
-                st.solver.add(prev >= lo, prev < hi)
+                st.solver.add(prev >= lo)
+                if hi is not None:
+                    st.solver.add(prev < hi)
             try:
                 body = step(mk(prev), mk(el))
             finally:
                 st.solver.pop()
             inst = z3.Implies(z3.And(jz > 0, elem_ok), f(arr, jz) == zint(body))
             if lo is not None:
-                inst = z3.And(inst, f(arr, jz) >= lo, f(arr, jz) < hi, prev >= lo, prev < hi)
+                inst = z3.And(inst, f(arr, jz) >= lo, prev >= lo) if hi is None else z3.And(inst, f(arr, jz) >= lo, f(arr, jz) < hi, prev >= lo, prev < hi)
             st.assume(inst, heavy=True)
         return mk(f(arr, jz))
 
